@@ -6,6 +6,9 @@ gradients, Hessians at dyadic lattice points -> replayed into the real evaluator
 spec/ElementCheck.tla (V: TLC judges the dof mapping / dof assignment / cell volumes / projection counters the real code produced
 on generated and shipped meshes), spec/MeshGen.tla (every gluing of two reference cells = every relative orientation of a shared
 facet), harness/c15_element.cpp (+ _g1.._g4 wrappers).
+Dimension 1: spec/LineElement.tla (M: Dual / FunctionalWellDefined / OneIndex / Continuous / GradContinuous on every enumerated chain of
+intervals in every orientation, exact integers; G: predicted dof maps, Jacobians, basis tables, node functional values, inverse-mapping
+hits) + spec/RefElement.tla section (e) (1-D bases, node functionals, signatures), harness/c15_line.cpp (+ _g1/_g2 wrappers).
 """
 import glob, json, os, shutil
 import concurrent.futures as cf
@@ -15,7 +18,11 @@ LEVEL = "model_checking"
 SHAPES = [("simplex", 2), ("simplex", 3), ("hypercube", 2), ("hypercube", 3)]
 GROUP = {"lagrange1": 1, "lagrange2": 1, "discontinuous0": 1, "discontinuous1": 1, "lagrange3": 2, "crorav": 2, "bernstein2": 3, "p2bubble": 3,
          "q1tbnp": 3, "cdssy": 3, "hermite3": 4, "argyris": 4, "bfs": 4}
-BINS = ["c15_element_g1", "c15_element_g2", "c15_element_g3", "c15_element_g4", "c15_isoparam"]
+BINS = ["c15_element_g1", "c15_element_g2", "c15_element_g3", "c15_element_g4", "c15_isoparam", "c15_line_g1", "c15_line_g2"]
+# dimension 1 (spec/LineElement.tla, harness/c15_line.cpp): family groups = harness binaries
+LINE_G1 = ["lagrange1", "lagrange2", "discontinuous0", "discontinuous1", "bernstein2"]
+LINE_G2 = ["lagrange3", "hermite3", "bfs"]
+LINE_INVARIANTS = "MeshOK ExactDomain DualPhys SpaceIsPk FunctionalWellDefined OneIndex Continuous LatticeEnds VolumeSum UnmapRoundTrip Emit"
 MESHDIR = os.path.join(vlib.REPO, "data", "meshes")
 FILES_QUICK = [("unit-circle-tria.xml", "simplex", 2), ("unit_circle_quad_5.xml", "hypercube", 2), ("unit-sphere-tetra.xml", "simplex", 3),
                ("cube_cylinder_hole_hexa_8.xml", "hypercube", 3), ("unit-square-quad-aniso.xml", "hypercube", 2)]
@@ -109,6 +116,56 @@ def make_cases(tier, table, meshes):
     return cases
 
 
+def line_jobs(tier):
+    """TLC runs of spec/LineElement.tla: (cfg name, family, element families, harness group)"""
+    if tier == "thorough":
+        parts = [("hypercube", [e], 1) for e in LINE_G1] + [("hypercube", [e], 2) for e in LINE_G2]
+    else:
+        parts = [("hypercube", LINE_G1[:3], 1), ("hypercube", LINE_G1[3:], 1), ("hypercube", LINE_G2, 2)]
+    parts.append(("simplex", ["discontinuous0", "discontinuous1"], 1))
+    jobs = []
+    for k, (fam, els, grp) in enumerate(parts):
+        cfg = "gen_c15_%d_line_%d.cfg" % (os.getpid(), k)
+        with open(os.path.join(vlib.SPEC, cfg), "w") as f:
+            f.write("SPECIFICATION Spec\nCONSTANTS Fam = \"%s\" Els = {%s} Mode = \"%s\"\nINVARIANTS %s\nCHECK_DEADLOCK FALSE\n"
+                    % (fam, ", ".join('"%s"' % e for e in els), tier, LINE_INVARIANTS))
+        jobs.append((cfg, fam, els, grp))
+    return jobs
+
+
+def run_line(chk, bins, futs):
+    """dimension 1: collect the LineElement runs (model checking of Dual / Continuous / ... on the specification + generation of the
+    predicted observations), replay the cases into the real trafo / spaces / interpolator / inverse mapping"""
+    ncase = ncmp = ndesc = 0
+    fams = {}
+    for fu, (cfg, fam, els, grp) in futs:
+        rr = fu.result()
+        chk.add_tlc(rr, "LineElement %s %s" % (fam, "+".join(els)))
+        if rr.violation:
+            chk.model_violation(rr, "LineElement (%s, %s): an invariant of the 1-D specification (Dual / Continuous / OneIndex / ...) fails" % (fam, "+".join(els)))
+            continue
+        cases = rr.printed
+        if not cases:
+            raise vlib.MachineryError("LineElement generated no cases (%s %s)" % (fam, els))
+        res = vlib.run_cases(bins[4 + grp], cases, tmo=120, shards=6)
+        vlib.judge_results(chk, cases, res,
+                           lambda c, r: {"kind": "line", "fam": c["fam"], "dim": 1, "el": c["el"], "descending": bool(c["desc"]),
+                                         "pred": r.get("pred", r.get("outcome", "mismatch"))},
+                           keyf=lambda c: "line %s %s %s %s" % (c["fam"], c["el"], json.dumps(c["X"]), json.dumps(c["cells"])),
+                           harness="c15_line_g%d" % grp, nontrivial=lambda c: c["nc"] > 1 or bool(c["desc"]))
+        ncase += len(cases)
+        ncmp += sum(r.get("ncmp", 0) for r in res)
+        ndesc += sum(1 for c in cases if c["desc"])
+        for c in cases:
+            k = "%s/%s1" % (c["el"], c["fam"])
+            fams[k] = fams.get(k, 0) + 1
+    chk.extra["line_cases"] = ncase
+    chk.extra["line_cases_with_descending_cell"] = ndesc
+    chk.extra["line_comparisons"] = ncmp
+    chk.extra["line_cases_by_family"] = fams
+    return ncase
+
+
 def sig_mesh(c, pred):
     return {"kind": "mesh", "fam": c["fam"], "dim": c["dim"], "el": c["el"], "src": c["srcname"], "pred": pred}
 
@@ -127,6 +184,17 @@ def run(chk):
 
 
 def _run(chk, tier, bins, gdir):
+    # ---- dimension 1: the TLC runs are started now and collected after the reference-cell part ----
+    ljobs = line_jobs(tier)
+    lex = cf.ThreadPoolExecutor(max_workers=4)
+    lfuts = [(lex.submit(vlib.tlc, "LineElement", j[0], timeout=2400, xmx="3g"), j) for j in ljobs]
+    try:
+        _run2(chk, tier, bins, gdir, lfuts)
+    finally:
+        lex.shutdown(wait=True)
+
+
+def _run2(chk, tier, bins, gdir, lfuts):
     # ---- M: the element tables (duality, partition of unity, layout, symmetric Hessians) ----
     r = vlib.tlc("RefElementSanity", timeout=600)
     chk.add_tlc(r, "RefElementSanity")
@@ -169,6 +237,9 @@ def _run(chk, tier, bins, gdir):
     chk.extra["isoparametric_cases"] = len(isocases)
     chk.extra["isoparametric_exact_comparisons"] = sum(rr.get("ncmp", 0) for rr in res)
     chk.extra["isoparametric_worst"] = {k: max([rr.get(k, 0.0) for rr in res] or [0.0]) for k in ("worst_inv", "worst_unmap", "worst_space")}
+
+    # ---- M + G: dimension 1 (intervals in both orientations, all families with a 1-D evaluator) ----
+    nline = run_line(chk, bins, lfuts)
 
     # ---- V: meshes ----
     meshes = gen_meshes(chk, tier)
@@ -216,7 +287,7 @@ def _run(chk, tier, bins, gdir):
             obs = {k: d[k] for k in ("rep", "dgrad", "dhess", "jump", "gjump", "mjump", "inv", "nmono", "axpar", "dyadic", "volnoise") if k in d}
             chk.violation(sig_mesh(c, p), "%s (%s %s%d %s): %s does not hold; observed %s" % (d["id"], c["srcname"], c["fam"], c["dim"], c["el"], p, json.dumps(obs)),
                           {"kind": "case", "harness": "c15_element_g%d" % GROUP[c["el"]], "case": slim, "verdict": v, "observed": obs})
-    chk.traces = len(full) + len(refcases) + len(isocases)
+    chk.traces = len(full) + len(refcases) + len(isocases) + nline
     chk.exhaustive = True
     chk.extra["generated_meshes"] = len(meshes)
     fams = {}
@@ -235,7 +306,14 @@ def _run(chk, tier, bins, gdir):
                 "TrafoVolume, InverseMapping).  Isoparametric part (G): spec/IsoTrafo.tla defines the degree-2 map of catalogue quadrilaterals with circle-curved edges "
                 "in all 4 local rotations exactly (integer polynomials) and emits img_point / jac_mat / hess_ten at the lattice points and the exact volume; replayed into "
                 "Trafo::Isoparam (==), plus jac_inv / hess_inv / InverseMapping / Lagrange-1/2 physical gradients and Hessians against the chain rule of the specified tensors.  "
-                "A case = (mesh, route, family); non-trivial = has an interior facet or is a single cell; quick tier sub-samples "
+                "Dimension 1 (M + G): spec/LineElement.tla enumerates chains of 1-3 (thorough: 4) intervals of lengths 1/4, 1/2, 1 in every orientation "
+                "pattern (every cell stored in ascending or DESCENDING coordinate order: negative Jacobian), with permuted vertex / cell numberings, for "
+                "Lagrange-1/2/3, Discontinuous-0/1, Bernstein-2, Hermite-3, Bogner-Fox-Schmit on Hypercube<1> and Discontinuous-0/1 on Simplex<1>; TLC checks "
+                "Dual (physical functionals on physical basis functions), FunctionalWellDefined, OneIndexPerFunctional, Continuous, GradContinuous (C1 families) "
+                "on the specification in exact integers and emits the predicted dof mapping / assignment, signed jac_mat, jac_det = |J|, jac_inv, cell length, "
+                "value / gradient / Hessian of every basis function at lattice points, N_i(x^k) for every functional, x^k and its derivatives, and the "
+                "(cell, xi) hits of Trafo::InverseMapping; harness/c15_line.cpp compares with == (1e-13 for the thirds of Lagrange-3 / the cubature of Bernstein-2).  "
+                "A case = (mesh, route, family); non-trivial = has an interior facet or is a single cell (1-D: more than one cell or a descending cell); quick tier sub-samples "
                 "the 3D gluings (stride 3-16)")
     for d in full[:: max(1, len(full) // 3)][:3]:
         c = byid[d["id"]]
@@ -246,7 +324,10 @@ def _run(chk, tier, bins, gdir):
                        "P2-bubble, Rannacher-Turek, Q1~-bnp, CDSSY only on the contained polynomial space; Bogner-Fox-Schmit has no node functionals (no Reproduce)",
                        "DerivConsistent is decided on the reproduced polynomials (exact derivatives of the monomials), not on arbitrary members of the local space",
                        "non-dyadic families / meshes are judged through stated floating-point tolerances (projection principle); the isoparametric transformation only for quadrilaterals: degree 2 with a circle chart exactly, degrees 1-3 without "
-                       "charts against the bilinear map (not: degree 3 with charts, simplices, hexahedra); dimensions 2 and 3"]
+                       "charts against the bilinear map (not: degree 3 with charts, simplices, hexahedra); dimensions 2 and 3",
+                       "dimension 1: interval lengths are powers of two (the exact domain: every Jacobian, inverse and chain-rule factor is dyadic), meshes embedded in R^1 "
+                       "only (ConformalMesh<Shape, 1>); Bernstein-2's cell functional is specified on the local space P2 only (b_mid = 2u(m) - (u(a)+u(b))/2), "
+                       "Bogner-Fox-Schmit has no NodeFunctional (Dual through the exact basis tables); the iso-parametric Hypercube<1> evaluator is not covered"]
 
 
 def replay(obj):
